@@ -47,6 +47,13 @@ T = {
     "C18-fatten-ignores-dst-flag": ("C18", "slim TZif with two local time types equal in offset and abbreviation but not in the DST flag (Auckland, Dublin), tz-fat on", ["C18", "C03"]),
     "C19-expiration-before-revalidate": ("C19", "a cached zone whose file disappears after its TTL: the second lookup serves the stale entry", ["C19"]),
     "C20-unknown-eq-utc-asymmetric": ("C20", "comparing an Etc/Unknown handle with a UTC handle in both orders", ["C20"]),
+    # ---- third round: the change had to be outside the property's anchored files (shared / utility code) ----
+    "C02-rangeint-try-new128-halfopen": ("C02", "Timestamp::from_nanosecond / from_microsecond / from_millisecond at the type's maximum (src/util/rangeint.rs)", ["C02"]),
+    "C06-span-fractional-mask": ("C06", "Zoned with zero sub-second + span whose only sub-second unit is milliseconds (src/span.rs)", ["C06"]),
+    "C08-as-hours-floor": ("C08", "Date + negative duration whose magnitude modulo 24h is between 23h and 24h (src/signed_duration.rs)", ["C08"]),
+    "C09-itime-add-seconds-trunc": ("C09", "second pass of a fold that ends DST at local midnight, in the POSIX-rule era (src/shared/util/itime.rs)", ["C09", "C04"]),
+    "C10-micros-per-day-const": ("C10", "Timestamp::round to microseconds with an increment dividing a day but not 86,400,000 (src/util/t.rs)", ["C10"]),
+    "C16-day-of-year-table": ("C16", "%j / %U / %W for November of a leap year (src/civil/date.rs)", ["C16", "C01"]),
 }
 for sid, (pid, needs, caught) in T.items():
     d = os.path.join(VERIF, "seeded", sid)
